@@ -493,7 +493,7 @@ PROPS["C12"] = dict(
          "1e-11 relative for matrix-free operators, 1e-8 for line/direct solves, 1e-6 for solves); kernels are compared with "
          "a long double reference within (n+4)*eps*sum|terms| and element-wise kernels bitwise with the step-by-step "
          "definition. Non-trivial: some thread count >= 2. Distinct: (operator, thread counts, shape/size)."
-         " Third session: whole solves with nr_exp 7/8, through setParameters(argc, argv), with file grids; a sixth of the cases call the operator from inside an enclosing parallel region; transfer results must be bit-identical across thread counts; line-solver operator; a campaign failure counts when the saved case fails again in 2 of up to 10 replays.",
+         " Third session: whole solves with nr_exp 7/8, through setParameters(argc, argv), with file grids; a sixth of the cases call the operator from inside an enclosing parallel region; transfer results must be bit-identical across thread counts; line-solver operator; a campaign failure counts when the saved case fails again in 2 of up to 10 replays. In a third of the cases the second and third of the repeated runs are confined to one and to two processors (all threads of the process), which changes arrival order at blocking points.",
     technique="property-based testing (rapidcheck); metamorphic relations (repeat run, change thread count) and a long double reference for the kernels",
     level_text="Generated operator/shape/thread-count cases are executed repeatedly and with different thread counts; outputs "
                "must be bit-identical run to run and equal up to re-association across thread counts; the vector kernels "
